@@ -244,6 +244,14 @@ class SymArray:
             else:
                 self._fn = lambda i, k: ite(k.e == b.e, v, old.at(i, k))
             writes.append((self, (None, b)))
+        elif (isinstance(key, tuple) and len(key) == 2 and self.ndim == 2 and isinstance(key[0], slice) and key[0] == slice(None)
+              and isinstance(key[1], slice) and key[1].step is None and not isinstance(val, SymArray)):
+            lo = _si(key[1].start) if key[1].start is not None else SI(0)
+            hi = _si(key[1].stop) if key[1].stop is not None else self.shape[1]
+            v = val
+            self._fn = lambda i, k: ite(z3.And(k.e >= lo.e, k.e < hi.e), v, old.at(i, k))
+            from .autoloops import Region
+            writes.append((self, Region(None, 2, {}, {1: (lo.e, hi.e)}, v, [])))
         elif isinstance(key, SymArray) and self.ndim == 1:       # a[idx_array] = scalar
             if isinstance(val, SymArray):
                 raise Unsupported("scatter of an array")
